@@ -32,11 +32,11 @@ CHECKS = {
         "technique": "explicit-state bounded model checking: every history <= d x all 25 bound pairs x every cursor program <= L on the real range_scan, against a vector reference cursor over the model map",
         "design_ref": "DESIGN.md 3.1, 4 (C03)",
         "jobs": {
-            "quick": [seq("C03", 3)],
-            "thorough": [seq("C03", 4, ADV, ["--scan-len-full", 4, "--scan-len-rest", 3])],
+            "quick": [seq("C03", 3, "B-l0,C-default,E-files2", ["--scan-len-full", 3, "--scan-len-rest", 2])],
+            "thorough": [seq("C03", 4, "B-l0,C-default,E-files2", ["--scan-len-full", 4, "--scan-len-rest", 3]), seq("C03", 3, "A-min,D-stall12", ["--scan-len-full", 3, "--scan-len-rest", 2])],
         },
         "text": "At the end of every history (as C01, one level shallower) a fresh KeyValueStore::range_scan is opened for each of the 25 combinations of unbounded/included/excluded bounds over {a,b} (including empty and inverted ranges) and every program of up to L calls over {next, prev, seek_to_first, seek_to_last, seek(5 targets)} is run on it; the observation after the last call must equal a vector cursor over the model restricted to the bounds.",
-        "note": "Reference movement semantics are those of sst::reference::ReferenceCursor (positions -1..n, saturating). L = 3 for three representative bound pairs and 2 for the rest (quick); 4/3 (thorough).",
+        "note": "Reference movement semantics are those of sst::reference::ReferenceCursor (positions -1..n, saturating). Per bound pair: every program <= 2 from a fresh cursor, and every program <= L that begins with an absolute positioning call, chained on one cursor and compared after every call (L = 3 for three representative bound pairs and 2 for the rest in the quick tier; 4/3 thorough). The program tree is walked once per distinct read signature (per-component entries up to order-preserving renaming of timestamps), which is exact for reads.",
     },
     "C02": {
         "level": "fault_enumeration",
@@ -62,14 +62,117 @@ CHECKS = {
         "text": "46 configurations of 2-3 inserter threads on adjacent keys (same predecessor at every level, scripted heights 1..3, ascending/descending/empty) racing one reader (full iteration, reverse iteration, seek+prev, contains) on the real SkipList<u64,u64,2|3> and 2-3 prependers racing an iterating reader on listfree::List: loom explores every interleaving of the pointer loads/stores/CASes, completing preemption bounds 1, 2, 3 and then the unbounded search as far as each configuration's budget allows (the completed bound is in the evidence). Oracle: a reader that starts after an insert returned must see it; iteration strictly ordered, nothing invented; after join everything present exactly once. Iterator validity is decided sequentially: every operation sequence <= 6 over {insert, open iterator, movements, drop list} with released nodes quarantined and every dereference asserting liveness.",
         "note": "loom models the C11 orderings of the AtomicPtr operations; node payloads are plain memory (not modelled); std Arc counts are not modelled. upstream loom 0.7.2 tracks only the last access per atomic, which loses load/RMW races between different threads; /verif/vendor/loom carries a small patch (marked VERIF PATCH) that tracks all loads since the last write.",
     },
+    "C04": {
+        "level": "model_checking",
+        "technique": "explicit-state bounded model checking of the real store (every history <= d) with the three-way setsum balance recomputed from the files after every history, plus the same oracle on every crash image of the crash explorer",
+        "design_ref": "DESIGN.md 4 (C04)",
+        "jobs": {
+            "quick": [seq("C04", 4), {"ws": "harness", "bin": "crash_store", "args": ["--prop", "C04", "--depth", 3, "--cfgs", "A-min", "--no-faults"], "timeout": 3000}],
+            "thorough": [seq("C04", 5), seq("C04", 4, COVER), {"ws": "harness", "bin": "crash_store", "args": ["--prop", "C04", "--depth", 4, "--cfgs", "A-min,B-l0", "--no-faults"], "timeout": 6000}],
+        },
+        "text": "After every history of <= d steps (manifest rollover ratio 1 so that fragments roll constantly) all manifest fragments are parsed independently of the store: every transaction must satisfy I = O + D, D = removed - added, I = previous O across fragments, every roll-up must list exactly the accumulated set, the last O must equal the sum of the listed digests and the set the live tree lists, and every listed SST's recorded setsum must equal the setsum recomputed from its entries; ManifestVerifier must accept every fragment and LsmVerifier passes (the V step) must not report corruption. The same oracle runs on every recovered crash image (all crash points of the last step, both persistence models).",
+        "note": "Accept half only in this check; the reject half (tampered outputs / digests must be refused) is exercised by the tamper job when present. Depth and alphabet as C01.",
+    },
+    "C05": {
+        "level": "model_checking",
+        "technique": "explicit-state bounded model checking: full multi-version dump of the live SSTs before and after every compaction step of every history <= d, compared as multisets / against an independent reading of the GC policy",
+        "design_ref": "DESIGN.md 4 (C05)",
+        "jobs": {
+            "quick": [seq("C05", 4)],
+            "thorough": [seq("C05", 5), seq("C05", 4, "A-min,B-l0,F-anygc,G-mand4-stall2")],
+        },
+        "text": "For every history of <= d steps over an alphabet with 1.5 KiB values and 4 KiB target files (so that compaction outputs split, also inside one key's version run) whose last step is a compaction, every entry (key, timestamp, value-or-tombstone) of every manifest-listed SST is dumped before and after the step. Unless the oldest level changed, the multisets must be equal. For a garbage collection nothing may be invented, a dropped value must have at least N newer entries of its key (versions = N), a dropped tombstone must not expose an older retained value, and the newest entry of every key must survive; with any(versions=1, ttl) at now=0 no value may be dropped.",
+        "note": "The GC oracle is a conjunction of safety conditions implied by every reading of the policy documentation; retaining more than the policy requires is always allowed.",
+    },
+    "C06": {
+        "level": "model_checking",
+        "technique": "stateless model checking of the whole real KeyValueStore under loom (DPOR, iterative preemption bounding) with a brute-force linearizability check of every execution's recorded history",
+        "design_ref": "DESIGN.md 3.3, 4 (C06)",
+        "jobs": {
+            "quick": [{"ws": "loomh", "bin": "loom_kvs", "args": ["--prop", "C06"], "timeout": 1200}],
+            "thorough": [{"ws": "loomh", "bin": "loom_kvs", "args": ["--prop", "C06"], "timeout": 10000}],
+        },
+        "text": "Nine harnesses on the real store (opened on tmpfs, memtable rollover on every write, skiplist heights 1 and 2): two-key batch vs. full scan; batch vs. two point reads; two writers of one key vs. a reader reading twice; delete and put vs. get+scan; put vs. one flush-loop iteration vs. get+scan; get+scan vs. one compaction-loop iteration on a two-file tree; two writers with read-back vs. a flush iteration. loom explores every interleaving of the lock, condition-variable, wait-list and skiplist operations up to the completed preemption bound; each execution's invocation/response history is checked by brute force against a sequential map (scan = one atomic read) and scans must show all or none of a batch.",
+        "note": "File-system calls are real and not scheduling points; at most 3 client threads, 2 operations each, one background step per execution; the completed preemption bound per harness is in the evidence (p=1..3 in the quick tier, because one execution opens a real store).",
+    },
+    "C07": {
+        "level": "model_checking",
+        "technique": "explicit-state bounded model checking: cursors opened at any point of a history and held across every sequence of writes, flushes, compactions, GCs and verifier passes, compared with the model at open time, with the skiplist allocation registry on",
+        "design_ref": "DESIGN.md 4 (C07)",
+        "jobs": {
+            "quick": [seq("C07", 4)],
+            "thorough": [seq("C07", 5), seq("C07", 4, "A-min,D-stall12,F-anygc,H-mem64-mand1")],
+        },
+        "text": "The alphabet adds 'open a scan and keep it' (two bound pairs) and cursor movements on kept cursors (next, prev, seek) to writes, flush, compaction, compact-until-idle and verifier passes; every sequence of <= d steps is run; each kept cursor must show exactly what a vector cursor over the model AT OPEN TIME shows, every movement must return Ok, nothing may panic, and no released skiplist node may be dereferenced (allocation registry).",
+        "note": "Sequential interleavings only (events happen between cursor calls, not inside them); the SST cache is off in row A so that a cached table cannot mask a retired file.",
+    },
+    "C08": {
+        "level": "model_checking",
+        "technique": "explicit-state bounded model checking of histories with verifier passes and reopen-time orphan clean-up (file-presence invariant + read-back), plus exhaustive crash points inside verifier passes and trash moves",
+        "design_ref": "DESIGN.md 4 (C08)",
+        "jobs": {
+            "quick": [seq("C08", 5), {"ws": "harness", "bin": "crash_store", "args": ["--prop", "C08", "--depth", 3, "--cfgs", "A-min", "--no-faults"], "timeout": 3000}],
+            "thorough": [seq("C08", 6), {"ws": "harness", "bin": "crash_store", "args": ["--prop", "C08", "--depth", 4, "--cfgs", "A-min,B-l0", "--no-faults"], "timeout": 6000}],
+        },
+        "text": "Every history of <= d steps over writes, flush, compaction, compact-until-idle, reopen and verifier passes: after the last step every SST the live version lists must be present in sst/, and all point reads must match the model (so a verifier pass or orphan clean-up that removed a needed file is seen at the next reopen/read). The crash explorer additionally cuts every verifier pass, compaction and reopen at every system call (both persistence models), reopens and reads back.",
+        "note": "Reader snapshots held across retirement are C07's business; log files needed for unreplayed writes are covered by the read-back after reopen.",
+    },
+    "C13": {
+        "level": "model_checking",
+        "technique": "explicit-state bounded model checking of the real Manifest: every edit sequence up to a depth over a hostile string alphabet x rollover ratios, reopen compared with a set/map model; every truncation length of MANIFEST",
+        "design_ref": "DESIGN.md 4 (C13)",
+        "jobs": {
+            "quick": [{"ws": "harness", "bin": "seq_mani", "args": [], "timeout": 1800}],
+            "thorough": [{"ws": "harness", "bin": "seq_mani", "args": ["--plan", "full:2,full:3:prune,core:4"], "timeout": 7200}],
+        },
+        "text": "Every sequence of edits (add, rm, info, combined, empty), rollovers and reopens up to depth 2 over a 163-symbol alphabet of hostile strings and keys and depth 3 over a 33-symbol core alphabet, at rollover ratios 1, 2 and 1000: in-memory state, state after reopen, Manifest::verify, and fragment chaining (each fragment begins with the roll-up of the complete state) must match a BTreeSet/BTreeMap model; newline must be refused; a second open of a locked manifest must fail, also from another process. Every truncation length of MANIFEST for 6 curated and all core histories <= 2: reopen yields a prefix state or an explicit error, never a partial edit, never a panic.",
+        "note": "Crash points between system calls of apply/rollover are enumerated by the crash explorer (crash_mani) when present; a layered alphabet replaces the infeasible full-alphabet depth 5.",
+    },
+    "C15": {
+        "level": "exploration",
+        "technique": "bounded-exhaustive input enumeration against an independent wire encoder/decoder (all short byte strings, boundary-saturated field values, all single mutations / insertions)",
+        "design_ref": "DESIGN.md 3.4, 4 (C15)",
+        "jobs": {
+            "quick": [{"ws": "harness", "bin": "enum_codec", "args": [], "timeout": 1800}],
+            "thorough": [{"ws": "harness", "bin": "enum_codec", "args": [], "timeout": 7200}],
+        },
+        "text": "Varints: all byte strings <= 3 (256-ary) and <= 10 over {00,01,7F,80,FF}, 10 buffer shapes each, fast path vs. slow path vs. an independent LEB128 reference. Messages: 23 derived types covering every field type and container; every boundary value per field and all pairs at a reduced set: pack_sz, bytes equal to an independent encoder, unpack equal. Hostile input: all strings <= 6 over a 12-symbol structural alphabet into every type, every bit flip / byte overwrite / truncation of 15k valid encodings, unknown fields of every wire type at every field boundary: Ok or Err, no panic, no allocation above 64 MiB, known fields undisturbed. Sweeps run in a child process so an abort is observed.",
+        "note": "Universally quantified over finite boundary-saturated domains, not over all 2^64 values. A field placed before the single field of a derived enum/Result is an unknown variant to the reader and may be refused (see DESIGN.md 9).",
+    },
+    "C18": {
+        "level": "model_checking",
+        "technique": "stateless model checking under loom of the real WorkCoalescingQueue / WaitList / LRU with 2-3 threads, plus bounded exhaustive operation sequences on the LRU and the wait list against sequential references",
+        "design_ref": "DESIGN.md 3.3, 4 (C18)",
+        "jobs": {
+            "quick": [{"ws": "loomh", "bin": "loom_sync", "args": [], "timeout": 1200},
+                      {"ws": "harness", "bin": "seq_lru", "args": [], "timeout": 1200}],
+            "thorough": [{"ws": "loomh", "bin": "loom_sync", "args": [], "timeout": 10000},
+                         {"ws": "harness", "bin": "seq_lru", "args": [], "timeout": 3600}],
+        },
+        "text": "Queue: 2-3 threads x 1-2 calls x cores that accept every batch / limit batches to two / refuse batching x 2 or 4 wait-list slots: every call returns f(own input), the core sees every input exactly once, program order and real-time order are preserved, batch limits are respected, and loom's deadlock detector finds no execution in which a call blocks forever. Wait list: 2-3 threads through 1, 2 or 4 slots (more waiters than slots): waiters become head in link order, nobody is lost. LRU: 2 threads x 2 operations linearizable against a map; sequentially, all 7.8 M operation sequences <= 5 (148 M <= 6 thorough) over insert / insert_no_evict / lookup / remove / pop with sizes {1,3} and capacities {0,3,4} against a set-valued LRU reference, and all wait-list link/unlink/notify/iterate sequences <= 8 over 4 guards.",
+        "note": "The LRU reference admits both answers where the documentation is silent (does overwrite refresh recency). loom bounds as for C17.",
+    },
+    "C20": {
+        "level": "model_checking",
+        "technique": "explicit-state search of every reachable stall state (sequential, every threshold row) plus stateless model checking under loom of writer + flush loop + real compaction loops with the deadlock detector as oracle",
+        "design_ref": "DESIGN.md 4 (C20)",
+        "jobs": {
+            "quick": [seq("C20", 5, "A-min,B-l0,E-files2,G-mand4-stall2"), {"ws": "loomh", "bin": "loom_kvs", "args": ["--prop", "C20"], "timeout": 1200}],
+            "thorough": [seq("C20", 6, COVER), {"ws": "loomh", "bin": "loom_kvs", "args": ["--prop", "C20"], "timeout": 10000}],
+        },
+        "text": "Sequential: in every state reached by a history of <= d steps (flush is only enabled when it would not park) in which level 0 holds back ingest, running the compaction loop until idle must end the stall within 64 compactions; a state that is stalled with no selectable compaction is a deadlock witness (configuration + history). Concurrent: a writer, one flush-loop iteration that has to ingest into a level 0 at the stall threshold, and 1-2 real compaction loops (released by a stop request once writer and flush are through); loom reports any execution in which every thread is parked.",
+        "note": "Deadlock-freedom inside the bounds, not fair termination; thresholds from the grid rows; one store open per loom execution limits the quick tier to preemption bound 1-2.",
+    },
 }
 
 HOOK_COMMITS = ["78dca42", "83c0526", "7e7e701", "cedc0ca"]
 
 ENGINES = [
+    {"name": "manimc", "path": "harness/manimc", "serves_properties": ["C13", "C18"], "kind_free_text": "bounded exhaustive operation sequences on the real Manifest, LRU cache and wait list against sequential references"},
+    {"name": "codecmc", "path": "harness/codecmc", "serves_properties": ["C15"], "kind_free_text": "bounded-exhaustive input enumeration for buffertk/prototk against an independent wire codec"},
     {"name": "crashmc", "path": "harness/crashmc", "serves_properties": ["C02", "C04", "C08"],
      "kind_free_text": "syscall journal by in-binary libc interposition, crash-image reconstruction, loss variants, single-fault injection"},
-    {"name": "loomh", "path": "loomh", "serves_properties": ["C17"],
+    {"name": "loomh", "path": "loomh", "serves_properties": ["C06", "C17", "C18", "C20"],
      "kind_free_text": "loom (vendored, patched DPOR dependency tracking) over the real concurrent code, one child process per configuration, iterative preemption bounding"},
     {"name": "seqmc", "path": "harness/seqmc", "serves_properties": ["C01", "C03", "C04", "C05", "C07", "C08", "C20"],
      "kind_free_text": "bounded exhaustive exploration of operation sequences on the real lsmtk store, single-stepped background loops"},
